@@ -32,6 +32,16 @@ if os.path.realpath(_REPO) != "/repo":
     shutil.copy(os.path.join(_REPO, "Cargo.lock"), os.path.join(_copy, "Cargo.lock")) if False else None
     HERE = _copy
     TARGET = "/verif/cache/replay-target-" + _tag
+    _sfx = "-nightly" if os.environ.get("VERIF_WITNESS_FLAVOUR", "") == "nightly" else ""
+    if not os.path.isdir(TARGET + _sfx) and os.path.isdir("/verif/cache/replay-target" + _sfx):
+        # start from the compiled dependencies of the main target (only dryoc and the witness itself are rebuilt)
+        subprocess.run(["cp", "-a", "/verif/cache/replay-target" + _sfx, TARGET + _sfx])
+# second flavour (configurations of dryoc that need the nightly toolchain): VERIF_WITNESS_FLAVOUR=nightly
+FLAVOUR = os.environ.get("VERIF_WITNESS_FLAVOUR", "")
+CARGO = ["cargo", "build", "--release", "--offline"]
+if FLAVOUR == "nightly":
+    TARGET = TARGET + "-nightly"
+    CARGO = ["cargo", "+nightly", "build", "--release", "--offline", "--features", "nightly"]
 BINARY = os.path.join(TARGET, "release", "witness")
 BUILD_TIMEOUT = 900
 RUN_TIMEOUT = {"quick": 60, "thorough": 400}
@@ -53,7 +63,7 @@ def build():
     env["CARGO_TARGET_DIR"] = TARGET
     try:
         p = subprocess.run(
-            ["cargo", "build", "--release", "--offline"],
+            CARGO,
             cwd=HERE,
             env=env,
             stdout=subprocess.PIPE,
